@@ -114,6 +114,8 @@ func (c *Conn) Read(p []byte) (int, error) {
 func (c *Conn) Write(p []byte) (int, error) {
 	c.mu.Lock()
 	if c.closed {
+		// an attempt all the same: remember what the caller tried to send
+		c.failedWrites = append(c.failedWrites, append([]byte(nil), p...))
 		c.mu.Unlock()
 		return 0, ErrClosed
 	}
@@ -138,6 +140,7 @@ func (c *Conn) Write(p []byte) (int, error) {
 	}
 	c.mu.Lock()
 	if c.closed {
+		c.failedWrites = append(c.failedWrites, append([]byte(nil), p...))
 		c.mu.Unlock()
 		return 0, ErrClosed
 	}
